@@ -49,6 +49,7 @@ func ReadPointCloud(in io.Reader) (*modeling.Mesh, error) {
 	readColor := false
 
 	curLine := 0
+	columns := -1
 	for curLine < parsedCount && scanner.Scan() {
 		line := strings.TrimSpace(scanner.Text())
 		if line == "" {
@@ -56,6 +57,15 @@ func ReadPointCloud(in io.Reader) (*modeling.Mesh, error) {
 		}
 
 		contents := strings.Fields(line)
+
+		// Every point carries the same columns. A line with fewer (or less
+		// than a position) is a damaged file, not a point at the origin.
+		if columns == -1 {
+			columns = len(contents)
+		}
+		if len(contents) < 3 || len(contents) != columns {
+			return nil, fmt.Errorf("pts point %d has %d columns, expected %d", curLine, len(contents), columns)
+		}
 
 		if len(contents) > 2 {
 			pos, err := ParseVec3(contents[0], contents[1], contents[2])
